@@ -2,11 +2,21 @@
 import importlib
 import io
 import os
+import signal
 import sys
 
 from . import seams
 from .clock import BudgetExceeded, StepClock
 from .faults import FaultPlan
+
+
+class WallTimeout(BaseException):
+    """Backstop only: the operation did not finish within the wall-clock limit (a hang that produces no
+    line events, or an untraced infinite loop).  Never used to decide anything but 'did not terminate'."""
+
+
+def _on_alarm(signum, frame):
+    raise WallTimeout("operation exceeded the wall-clock backstop")
 
 
 class Outcome(object):
@@ -78,7 +88,7 @@ def _exc_site(tb):
 
 
 def invoke(world, op, faults=None, trace=False, budget=None, monitor=False, track=False, tail=0,
-           site_at=None, black=True, call=None):
+           site_at=None, black=True, call=None, wall_s=30, with_exits=False):
     """Run one operation.
 
     op: {"cmd": "cli", "argv": [...]}  -> cdd.__main__.main(argv)
@@ -90,8 +100,8 @@ def invoke(world, op, faults=None, trace=False, budget=None, monitor=False, trac
     out = Outcome()
     lf = plan.line_fault()
     clock = None
-    if trace or lf is not None or budget is not None or track or site_at:
-        clock = StepClock(budget=budget, inject=lf, track=track, tail=tail, site_at=site_at)
+    if trace or lf is not None or budget is not None or track or site_at or with_exits:
+        clock = StepClock(budget=budget, inject=lf, track=track, tail=tail, site_at=site_at, with_exits=with_exits)
     out.clock = clock
 
     if call is None:
@@ -126,9 +136,12 @@ def invoke(world, op, faults=None, trace=False, budget=None, monitor=False, trac
     sys.argv = ["python -m cdd"]
     if exmod_utils is not None:
         exmod_utils.EXMOD_OUT_STREAM = sink_out
-    st = seams.begin(world, plan, monitor=monitor)
+    st = seams.begin(world, plan, monitor=monitor, clock=clock)
+    old_alarm = signal.signal(signal.SIGALRM, _on_alarm) if wall_s else None
     try:
         try:
+            if wall_s:
+                signal.setitimer(signal.ITIMER_REAL, wall_s)
             if clock is not None:
                 clock.start()
             try:
@@ -136,6 +149,12 @@ def invoke(world, op, faults=None, trace=False, budget=None, monitor=False, trac
             finally:
                 if clock is not None:
                     clock.stop()
+                if wall_s:
+                    signal.setitimer(signal.ITIMER_REAL, 0)
+        except WallTimeout as e:
+            out.kind = "timeout"
+            out.exc_type = "WallTimeout"
+            out.exc_msg = str(e)
         except seams.SimCrash as e:
             out.kind = "crashed"
             out.exc_type = "SimCrash"
@@ -152,6 +171,9 @@ def invoke(world, op, faults=None, trace=False, budget=None, monitor=False, trac
             if st.crashed:
                 out.kind = "crashed"
     finally:
+        if wall_s:
+            signal.setitimer(signal.ITIMER_REAL, 0)
+            signal.signal(signal.SIGALRM, old_alarm)
         seams.end(st)
         sys.stdout, sys.stderr = old_out, old_err
         sys.argv = old_argv
